@@ -279,6 +279,13 @@ func (e *env) build(v *Val) interface{} {
 	case "rv":
 		// a reflect.Value operand: printed like the value it holds
 		return reflect.ValueOf(e.build(child(v)))
+	case "rvunexp":
+		// a reflect.Value obtained from an unexported field: its content
+		// cannot be extracted, it is printed by reflection alone
+		return reflect.ValueOf(simUStruct{user: e.build(child(v))}).Field(1)
+	case "rvzero":
+		// the zero reflect.Value (direct operands only)
+		return reflect.Value{}
 	case "arrn":
 		// a value of a struct type made with reflect.StructOf: a distinct Go
 		// type for every n, for type diversity (per-type caches in the code
@@ -488,7 +495,7 @@ func (e *env) fmtMethod(id int, method string, f fmt.State, verb rune) {
 				p = -1
 			}
 			fmt.Fprintf(f, "[%c w=%d/%v p=%d/%v", verb, w, wok, p, pok)
-			for _, c := range "+-# 0" {
+			for _, c := range "+-# 0z" { // 'z': no such flag, never set
 				if f.Flag(int(c)) {
 					fmt.Fprintf(f, " %c", c)
 				}
